@@ -2,14 +2,19 @@
 of a well-founded accepted grammar returns.
 
 Three implementation-level oracles, all on /repo's current working tree:
-  A (refusal)   harness/gen_runner calls `derive_typed_parser` (default options) under `catch_unwind`
-                and, independently, every stage of pest_meta's front end; the generator must panic
-                exactly when `parse`/`consume_rules` (= `validate_ast`) reject the grammar, and must
-                not panic when pest's whole front end accepts it.
+  A (refusal)   harness/gen_runner calls `derive_typed_parser` under `catch_unwind` with the default options AND
+                with every option set of `OPTION_SETS` (`pest_optimizer = false`, `no_warnings`,
+                `emit_rule_reference`, `box_only_if_needed`, `do_not_emit_span`, a combination) and,
+                independently, every stage of pest_meta's front end; the generator must refuse (panic, or
+                emit `compile_error!`: rustc refuses either way) exactly when `parse`/`consume_rules`
+                (= `validate_ast`) reject the grammar, and must not refuse when pest's whole front end accepts
+                it.  `refusal_through_proc_macro`: a sample of rejected grammars (and accepted controls) goes
+                through the REAL `#[derive(TypedParser)]`, one bin target each, rotating the option sets:
+                exactly the rejected ones must fail to build, with the validator's message in rustc's output.
   B (compiles)  a seeded sample of the accepted grammars is derived through the real proc macro in a
                 16-crate cargo workspace; a rustc error is attributed to its grammar by bisection.
   C (returns)   every rule of every compiled grammar that is statically well-founded is run on all
-                short inputs under the runners' 20 s watchdog.  "Well-founded" is decided by the Lean
+                short inputs under the runners' 6 s watchdog.  "Well-founded" is decided by the Lean
                 model's `wfCheck` (Lemmas/Termination.lean: `NulOK`/`NoLeftRec`/`Progressing` with computed
                 witnesses, proved sound and proved to imply termination: `C11_terminates_checked`), run
                 through `model_driver`; `corpus.analyse` is a stricter python filter.
@@ -73,14 +78,28 @@ def build_gen_runner():
     return GEN_EXE
 
 
-def run_gen(grammars, nproc=4):
-    """gid -> observables of gen_runner (messages already decoded)."""
+# non-default derive option sets under which refusal (oracle A) is observed as well
+OPTION_SETS = [
+    "#[pest_optimizer = false]",
+    "#[no_warnings]",
+    "#[emit_rule_reference]",
+    "#[box_only_if_needed]",
+    "#[do_not_emit_span]",
+    "#[pest_optimizer = false] #[no_warnings] #[emit_rule_reference] #[box_only_if_needed] #[do_not_emit_span]",
+    "#[no_warnings] #[emit_tagged_node_reference] #[simulate_pair_api] #[truncate_getter_at_node_tag = false]",
+]
+REFUSED = ("panic", "cerr")
+
+
+def run_gen(grammars, nproc=4, optsets=OPTION_SETS):
+    """gid -> observables of gen_runner (messages already decoded); `dopt` = list of the derive verdicts under `optsets`."""
     chunks = [grammars[i::nproc] for i in range(nproc)]
+    optcol = corpus.hexs("\n".join(optsets)) if optsets else "-"
 
     def run(chunk):
         if not chunk:
             return []
-        inp = "".join(f"{g['gid']}\t{corpus.hexs(g['text'])}\n" for g in chunk)
+        inp = "".join(f"{g['gid']}\t{corpus.hexs(g['text'])}\t{optcol}\n" for g in chunk)
         p = subprocess.run([GEN_EXE], input=inp, capture_output=True, text=True)
         lines = p.stdout.splitlines()
         if p.returncode != 0 or len(lines) != len(chunk):
@@ -96,8 +115,12 @@ def run_gen(grammars, nproc=4):
                 if f[0] != g["gid"]:
                     raise RuntimeError(f"gen_runner answered out of order: expected {g['gid']}, got {f[0]}")
                 o = suites.parse_obs(l)
-                for k in ("vmsg", "pmsg", "dmsg"):
+                for k in ("vmsg", "pmsg", "dmsg", "doptmsg"):
                     o[k] = corpus.unhex(o.get(k, "-"))
+                o["dopt"] = [] if o.get("dopt", "-") == "-" else o["dopt"].split(",")
+                o["doptmsg"] = o["doptmsg"].split("\n") if o["dopt"] else []
+                if len(o["dopt"]) != len(optsets or []):
+                    raise RuntimeError(f"gen_runner answered {len(o['dopt'])} option sets for {g['gid']}, expected {len(optsets or [])}")
                 res[g["gid"]] = o
     return res
 
@@ -809,7 +832,7 @@ ENTRIES = ("parse_partial", "check_partial", "parse", "check")
 
 def run_bins_bounded(prefix, where, cases, bindir, max_bad=3):
     """Like suites.run_bins, but a grammar is abandoned after `max_bad` cases that did not return (the watchdog of
-    `vh_common::serve` prints `v=timeout` after 20 s and exits with code 3; a crash kills the process without an
+    `vh_common::serve` prints `v=timeout` after 6 s and exits with code 3; a crash kills the process without an
     answer): its remaining cases are answered `v=skipped`.  Keeps the cost of a looping parser bounded."""
     per = {}
     for no, c in enumerate(cases):
@@ -1217,14 +1240,17 @@ def check_C11(ctx):
     by_class, by_err, pairs_only = {}, {c: 0 for c in LISTED + ["other"]}, {}
     syntax_errors = accepted = disagreements = judged = nontrivial = 0
     accepted_gs, leftrec_accepted = [], []
-    examples, panic_kind, pgen_refuses = {}, {}, {}
+    examples, panic_kind, pgen_refuses, refusal_how = {}, {}, {}, {}
+    opt_judged = opt_bad = 0
     for g in gs:
         o = obs[g["gid"]]
         g["obs"] = o
         st = by_class.setdefault(g["class"], {"total": 0, "validator_rejects": 0, "derive_panics": 0, "fully_accepted": 0})
         st["total"] += 1
         rejected = o["parse"] == "err" or o["consume"] == "err"
-        panics = o["derive"] == "panic"
+        panics = o["derive"] in REFUSED          # a panic or `compile_error!` tokens: rustc refuses the grammar either way
+        if o["derive"] == "cerr":
+            refusal_how["compile_error"] = refusal_how.get("compile_error", 0) + 1
         st["validator_rejects"] += rejected
         st["derive_panics"] += panics
         case = {"grammar": g["text"], "gid": g["gid"], "class": g["class"]}
@@ -1285,6 +1311,24 @@ def check_C11(ctx):
             pairs_only.setdefault("by_first_message", {}).setdefault(kind, {"derive_ok": 0, "derive_panic": 0})["derive_" + o["derive"]] += 1
         for c in classes:
             examples.setdefault(c, g["text"])
+        # the same obligation under every non-default option set
+        pest_accepts = (not rejected) and o["full"] == "ok" and o.get("pgen") != "panic"
+        if rejected or pest_accepts:
+            for oset, v, m in zip(OPTION_SETS, o["dopt"], o["doptmsg"]):
+                opt_judged += 1
+                if v == "badattrs":
+                    raise RuntimeError(f"gen_runner could not parse the option set {oset!r}")
+                if rejected and v not in REFUSED:
+                    opt_bad += 1
+                    ctx.violations.append({"what": f"generator accepted a grammar pest's validator rejects [{', '.join(sorted(classes))}] under non-default options",
+                                           "case": dict(case, options=oset), "validator": o["vmsg"]})
+                elif pest_accepts and not panics and v in REFUSED:
+                    opt_bad += 1
+                    ctx.violations.append({"what": "generator refused a grammar pest accepts under non-default options",
+                                           "case": dict(case, options=oset), "panic": m})
+    ctx.evaluations += opt_judged
+    ctx.ties["derive-vs-validator:option-sets"] = {"cases": opt_judged, "agree": opt_judged - opt_bad,
+                                                   "observables": ["refusal (panic | compile_error!) under " + " ; ".join(OPTION_SETS)]}
     ctx.evaluations += judged
     ctx.nontrivial += nontrivial
     ctx.ties["derive-vs-validator"] = {"cases": judged, "agree": judged - disagreements, "observables": ["panic", "consume_rules verdict"]}
@@ -1296,7 +1340,7 @@ def check_C11(ctx):
         ctx.tie_broken("corpus-coverage", {"error": "no grammar of the corpus is rejected by pest's validator for: " + ", ".join(missing),
                                            "by_validator_error": by_err})
     dist = {"grammars": len(gs), "by_class": by_class, "by_validator_error": by_err, "pairs_only": pairs_only, "syntax_errors": syntax_errors,
-            "accepted": accepted, "mutation_sources": nsrc, "refusal_panics": panic_kind,
+            "accepted": accepted, "mutation_sources": nsrc, "refusal_panics": panic_kind, "refusal_by_compile_error": refusal_how,
             "front_end_accepts_but_pest_generator_panics": pgen_refuses,
             "leftrec_family_accepted_by_validator": {"count": len(leftrec_accepted), "examples": leftrec_accepted[:6]},
             "first_example_per_error": {k: v[:160] for k, v in examples.items()}}
@@ -1448,7 +1492,7 @@ def check_C11(ctx):
         "parse, check) of the compiled grammars that "
         "are statically well-founded (decided by `wfCheck` of the Lean model, proved sound: no rule reaches itself through a nullable prefix, the "
         "implicit skip included; no unbounded repetition body or skip rule body may match empty; stack-reading terminals count as nullable) on all inputs up to length "
-        f"{maxlen} over (a cap of) the grammar's alphabet plus random longer ones, under a 20 s watchdog (a grammar is abandoned after 3 cases that do not return); "
+        f"{maxlen} over (a cap of) the grammar's alphabet plus random longer ones, under a 6 s watchdog (a grammar is abandoned after 3 cases that do not return); "
         "the well-founded grammars that contain a counted repetition (a hand-written family of them nested in `*`/`+`/`{k,}`, under predicates, in atomic rules, "
         "plus those of the sample) are also compiled with `#[pest_optimizer = false]` — the only way RepeatMin/RepeatMinMax are instantiated — and run on the same inputs.  "
         "Outside the property: grammars rejected only by "
